@@ -37,12 +37,11 @@ Print Assumptions C14_complete_decorator.
 
 (* ============================== 2. soundness ============================== *)
 (* every queued key is the key of an affected candidate (the event's own object
-   for a parent event, a cached parent for a child event); names are assumed
-   free of "/" as the API server guarantees.  Parent delete tombstones are
-   excluded: see C14_unmatched_tombstone_refuted. *)
+   for a parent event - delete tombstones included -, a cached parent for a child
+   event); names are assumed free of "/" as the API server guarantees, and a
+   tombstone's key is the key of the object it carries (event_wf). *)
 Theorem C14_sound : forall c parents s ev k,
-  names_ok parents s ev = true ->
-  (s = SParent -> is_tombstone ev = false) ->
+  names_ok parents s ev = true -> event_wf ev = true ->
   In k (handle c parents s ev) ->
   exists p, In p (candidates parents s ev) /\ key_of p = k /\ affects c s ev p = true.
 Proof. exact sound. Qed.
@@ -50,7 +49,6 @@ Print Assumptions C14_sound.
 
 Theorem C14_sound_decorator : forall c parents s ev k,
   names_ok parents s ev = true ->
-  (s = SParent -> is_tombstone ev = false) ->
   In k (d_handle c parents s ev) ->
   exists p, In p (candidates parents s ev) /\ d_key_of p = k /\ d_affects c s ev p = true.
 Proof. exact d_sound. Qed.
@@ -67,44 +65,52 @@ Theorem C14_resync_enqueues_nothing_decorator : forall c parents old cur,
 Proof. exact d_child_update_resync. Qed.
 Print Assumptions C14_resync_enqueues_nothing_decorator.
 
-(* (b) parents that neither match nor carry the finalizer are never queued
-   by an add, update or delete that delivers the object itself *)
+(* (b) parents that neither match nor carry the finalizer are never queued: by no
+   add, update or delete, whether the delete delivers the object itself or a
+   cache.DeletedFinalStateUnknown tombstone (enqueueParentObject unwraps the
+   tombstone before the selector/finalizer filter) *)
 Theorem C14_enqueue_parent_sound : forall c o k,
   In k (enqueue_parent c (WObj o)) -> k = key_of o /\ cares (e_cc c) o = true.
 Proof. exact enqueue_obj_sound. Qed.
 Print Assumptions C14_enqueue_parent_sound.
+
+Theorem C14_enqueue_tombstone_sound : forall c k o q,
+  In q (enqueue_parent c (WTomb k o)) -> q = k /\ cares (e_cc c) o = true.
+Proof. exact enqueue_tomb_sound. Qed.
+Print Assumptions C14_enqueue_tombstone_sound.
+
+Theorem C14_enqueue_tombstone_sound_decorator : forall c k o q,
+  In q (d_enqueue_parent c (WTomb k o)) -> q = d_key_of o /\ d_cares c o = true.
+Proof. exact d_enqueue_tomb_sound. Qed.
+Print Assumptions C14_enqueue_tombstone_sound_decorator.
 
 Theorem C14_update_parent_sound : forall c old cur k,
   In k (update_parent c old cur) -> k = key_of cur /\ cares (e_cc c) cur = true.
 Proof. exact update_sound. Qed.
 Print Assumptions C14_update_parent_sound.
 
-Theorem C14_unmatched_never_queued_partial : forall c parents ev,
-  is_tombstone ev = false -> unmatched_parent_event c SParent ev = true ->
-  handle c parents SParent ev = [].
+Theorem C14_unmatched_never_queued : forall c parents ev,
+  unmatched_parent_event c SParent ev = true -> handle c parents SParent ev = [].
 Proof. exact unmatched_never_queued. Qed.
-Print Assumptions C14_unmatched_never_queued_partial.
+Print Assumptions C14_unmatched_never_queued.
 
-Theorem C14_unmatched_never_queued_decorator_partial : forall c parents ev,
-  is_tombstone ev = false -> d_unmatched_parent_event c SParent ev = true ->
-  d_handle c parents SParent ev = [].
+Theorem C14_unmatched_never_queued_decorator : forall c parents ev,
+  d_unmatched_parent_event c SParent ev = true -> d_handle c parents SParent ev = [].
 Proof. exact d_unmatched_never_queued. Qed.
-Print Assumptions C14_unmatched_never_queued_decorator_partial.
+Print Assumptions C14_unmatched_never_queued_decorator.
 
-(* ... but the full statement is FALSE of the faithful model and of the code:
-   enqueueParentObject filters only *unstructured.Unstructured, a
-   cache.DeletedFinalStateUnknown goes straight to the queue. *)
-Theorem C14_unmatched_tombstone_refuted :
-  ~ (forall c parents ev, event_wf ev = true -> unmatched_parent_event c SParent ev = true ->
-       handle c parents SParent ev = []).
-Proof. exact unmatched_tombstone_queued. Qed.
-Print Assumptions C14_unmatched_tombstone_refuted.
+(* the delete tombstone of a parent the controller does not care about queues nothing
+   (formerly C14_unmatched_tombstone_refuted: before the repair of D31 the filter was
+   applied to *unstructured.Unstructured only and the tombstone went straight to the queue) *)
+Theorem C14_unmatched_tombstone_sound : forall c k o,
+  cares (e_cc c) o = false -> on_parent_event c (EDeleteTombstone k o) = [].
+Proof. exact unmatched_tombstone_sound. Qed.
+Print Assumptions C14_unmatched_tombstone_sound.
 
-Theorem C14_unmatched_tombstone_decorator_refuted :
-  ~ (forall c parents ev, d_unmatched_parent_event c SParent ev = true ->
-       d_handle c parents SParent ev = []).
-Proof. exact d_unmatched_tombstone_queued. Qed.
-Print Assumptions C14_unmatched_tombstone_decorator_refuted.
+Theorem C14_unmatched_tombstone_sound_decorator : forall c k o,
+  d_cares c o = false -> d_on_parent_event c (EDeleteTombstone k o) = [].
+Proof. exact d_unmatched_tombstone_sound. Qed.
+Print Assumptions C14_unmatched_tombstone_sound_decorator.
 
 (* (c) a controlled child wakes only the parent its owner reference resolves to:
    at most one key, and it is the key of THE cached parent stored under the
@@ -223,8 +229,9 @@ Theorem C14_key_roundtrip_decorator : forall o,
 Proof. exact d_key_roundtrip. Qed.
 Print Assumptions C14_key_roundtrip_decorator.
 
-(* the key queued for a decorator parent delete tombstone parses back to the deleted object *)
+(* the key queued for the delete tombstone of a cared-for decorator parent parses back to the deleted object *)
 Theorem C14_decorator_tombstone_key_parses : forall c k o,
+  d_cares c o = true ->
   no_char colon (get_api_version o) = true -> no_char colon (get_kind o) = true ->
   no_char colon (get_ns o) = true ->
   exists q, d_on_parent_event c (EDeleteTombstone k o) = [q] /\
@@ -435,5 +442,21 @@ Example C14_related_old_state_demanded :
   C14r_check (mkC14r ExR.cfg ExR.ans Ex.cache (EUpdate old cur)
                 [d_key_of Ex.p1; d_key_of Ex.p2]) = OK /\
   C14r_check (mkC14r ExR.cfg ExR.ans Ex.cache (EUpdate old cur) [d_key_of Ex.p2])
+    = PROPFAIL "affected-parent-not-enqueued".
+Proof. vm_compute. repeat split; reflexivity. Qed.
+
+(* delete tombstones go through the same filter: unmatching p3 queues nothing, the
+   matching p1 and the finalizer-only p4 are queued, under the tombstone's key *)
+Example C14_tombstone_filter_inhabited :
+  cares (e_cc (Ex.cfg false false)) Ex.p3 = false /\
+  handle (Ex.cfg false false) Ex.cache SParent (EDeleteTombstone "ns1/p3" Ex.p3) = [] /\
+  handle (Ex.cfg false false) Ex.cache SParent (EDeleteTombstone "ns1/p1" Ex.p1) = ["ns1/p1"] /\
+  handle (Ex.cfg false false) Ex.cache SParent (EDeleteTombstone "ns1/p4" Ex.p4) = ["ns1/p4"] /\
+  d_cares ExD.cfg Ex.p3 = false /\
+  d_handle ExD.cfg ExD.cache SParent (EDeleteTombstone "ns1/p3" Ex.p3) = [] /\
+  C14_check (mkC14 (FComposite (Ex.cfg false false)) Ex.cache SParent (EDeleteTombstone "ns1/p3" Ex.p3) []) = OK /\
+  C14_check (mkC14 (FComposite (Ex.cfg false false)) Ex.cache SParent (EDeleteTombstone "ns1/p3" Ex.p3) ["ns1/p3"])
+    = PROPFAIL "unmatched-parent-tombstone-enqueued" /\
+  C14_check (mkC14 (FComposite (Ex.cfg false false)) Ex.cache SParent (EDeleteTombstone "ns1/p1" Ex.p1) [])
     = PROPFAIL "affected-parent-not-enqueued".
 Proof. vm_compute. repeat split; reflexivity. Qed.
